@@ -457,11 +457,11 @@ def run_cases(rep, cases):
 
 def run_stream(ctx, rep):
     cases = []
-    for i in range(ctx.scale(30, 400)):
+    for i in range(ctx.scale(20, 400)):
         cases.append(gen_point_case(ctx, i))
-    for i in range(ctx.scale(18, 250)):
+    for i in range(ctx.scale(12, 250)):
         cases.append(gen_rot3_case(ctx, i))
-    for i in range(ctx.scale(18, 250)):
+    for i in range(ctx.scale(12, 250)):
         cases.append(gen_mesh_case(ctx, i))
     run_cases(rep, cases)
 
